@@ -237,10 +237,130 @@ type c02Delivery struct {
 	t        *c02Target
 	id       string
 	letters  string
+	script   c02Script
 	applied  []byte
 	to       []string
 	accepted []string
+	addrs    []string // the accepted recipients as the queue spelled them
+	bodyOK   []string // accepted recipients whose body stage succeeded
 	logged   bool
+}
+
+// c02PartialDelivery is the same scripted delivery for a target that implements module.PartialDelivery:
+// the queue then calls BodyNonAtomic and gets one status per accepted recipient.
+type c02PartialDelivery struct{ *c02Delivery }
+
+// c02Script is the script of ONE delivery attempt at the target, stage by stage:
+//
+//	<add>                      one letter per recipient of the attempt (o|t|p|u): result of AddRcpt; the target is
+//	                           a plain one, Body and Commit succeed (the short form, all older op lines)
+//	<add>/a<b>/<c>             plain target: Body returns <b> (one letter), Commit returns <c>
+//	<add>/n<b1><b2>…/<c>       target implementing PartialDelivery: BodyNonAtomic reports <bi> for the i-th ACCEPTED
+//	                           recipient, Commit returns <c>
+//
+// Letters: o success, t temporary (451 4.3.0), p permanent (550 5.1.1), u an error without SMTP status.
+// Missing letters are `o`.  The message is EFFECTIVE at the target only when Commit succeeded: a recipient
+// counts as delivered (event DLV) only then.
+type c02Script struct {
+	add     string
+	long    bool
+	partial bool
+	body    string
+	commit  byte
+}
+
+func c02ParseScript(t string) c02Script {
+	p := strings.Split(t, "/")
+	sc := c02Script{add: p[0], commit: 'o'}
+	if len(p) >= 2 && len(p[1]) >= 1 {
+		sc.long = true
+		sc.partial = p[1][0] == 'n'
+		sc.body = p[1][1:]
+		if len(p) >= 3 && len(p[2]) >= 1 {
+			sc.commit = p[2][0]
+		}
+	}
+	return sc
+}
+
+func c02LetterAt(s string, i int) byte {
+	if i < len(s) {
+		return s[i]
+	}
+	return 'o'
+}
+
+// c02Canon spells the script for an attempt that had nto recipients (what the `O` token of the op line carries).
+func c02Canon(t string, nto int) string {
+	sc := c02ParseScript(t)
+	add := make([]byte, nto)
+	nacc := 0
+	for i := range add {
+		add[i] = c02LetterAt(sc.add, i)
+		if add[i] == 'o' {
+			nacc++
+		}
+	}
+	if !sc.long {
+		return string(add)
+	}
+	if !sc.partial {
+		return string(add) + "/a" + string(c02LetterAt(sc.body, 0)) + "/" + string(sc.commit)
+	}
+	b := make([]byte, nacc)
+	for i := range b {
+		b[i] = c02LetterAt(sc.body, i)
+	}
+	return string(add) + "/n" + string(b) + "/" + string(sc.commit)
+}
+
+// c02Effective is the CONTRACT of a delivery attempt, written down independently of Queue.deliver: per recipient of
+// the attempt the letter of its final result.  A recipient refused by AddRcpt has that result; if nobody was
+// accepted, or the body stage failed for every accepted recipient, the target aborts; otherwise Commit decides: when
+// it fails NOBODY has received the message (it only becomes effective in Commit), so every accepted recipient has
+// the Commit failure as its result — also the ones a PartialDelivery target had reported success for.
+func c02Effective(t string) string {
+	sc := c02ParseScript(t)
+	res := []byte(sc.add)
+	var acc []int
+	for i := range res {
+		if res[i] == 'o' {
+			acc = append(acc, i)
+		}
+	}
+	if !sc.long || len(acc) == 0 {
+		return string(res)
+	}
+	allFailed := true
+	for k, i := range acc {
+		if sc.partial {
+			res[i] = c02LetterAt(sc.body, k)
+		} else {
+			res[i] = c02LetterAt(sc.body, 0)
+		}
+		if res[i] == 'o' {
+			allFailed = false
+		}
+	}
+	if allFailed || sc.commit == 'o' {
+		return string(res)
+	}
+	for _, i := range acc {
+		res[i] = sc.commit
+	}
+	return string(res)
+}
+
+func c02Err(c byte, what string) error {
+	switch c {
+	case 't':
+		return &exterrors.SMTPError{Code: 451, EnhancedCode: exterrors.EnhancedCode{4, 3, 0}, Message: what + ": try later"}
+	case 'p':
+		return &exterrors.SMTPError{Code: 550, EnhancedCode: exterrors.EnhancedCode{5, 1, 1}, Message: what + ": refused"}
+	case 'u':
+		return errors.New(what + ": unclassified failure")
+	}
+	return nil
 }
 
 func (t *c02Target) Start(ctx context.Context, msgMeta *module.MsgMetadata, mailFrom string) (module.Delivery, error) {
@@ -259,15 +379,22 @@ func (t *c02Target) Start(ctx context.Context, msgMeta *module.MsgMetadata, mail
 		letters = t.outcomes[id][a]
 	}
 	t.mu.Unlock()
-	return &c02Delivery{t: t, id: id, letters: letters}, nil
+	d := &c02Delivery{t: t, id: id, letters: letters, script: c02ParseScript(letters)}
+	if d.script.partial {
+		return &c02PartialDelivery{d}, nil
+	}
+	return d, nil
 }
 
 func (d *c02Delivery) AddRcpt(ctx context.Context, to string, _ smtp.RcptOptions) error {
 	idx, rid, ok := c02ParseAddr(to)
 	pos := len(d.applied)
-	c := byte('o')
-	if pos < len(d.letters) {
-		c = d.letters[pos]
+	c := c02LetterAt(d.script.add, pos)
+	if strings.HasPrefix(d.letters, "x") {
+		c = 'o'
+		if pos == 0 {
+			c = 'x'
+		}
 	}
 	d.applied = append(d.applied, c)
 	if !ok || rid != d.id {
@@ -284,6 +411,7 @@ func (d *c02Delivery) AddRcpt(ctx context.Context, to string, _ smtp.RcptOptions
 		return errors.New("unclassified failure")
 	}
 	d.accepted = append(d.accepted, strconv.Itoa(idx))
+	d.addrs = append(d.addrs, to)
 	return nil
 }
 
@@ -292,11 +420,15 @@ func (d *c02Delivery) flush() {
 		return
 	}
 	d.logged = true
-	d.t.w.Events(d.id, "@O:"+string(d.applied), "ATT:"+strings.Join(d.to, "."))
+	tok := string(d.applied)
+	if !strings.HasPrefix(d.letters, "x") {
+		tok = c02Canon(d.letters, len(d.applied))
+	}
+	d.t.w.Events(d.id, "@O:"+tok, "ATT:"+strings.Join(d.to, "."))
 }
 
-func (d *c02Delivery) Body(ctx context.Context, header textproto.Header, body buffer.Buffer) error {
-	d.flush()
+// content checks what the queue hands to the target against what was accepted.
+func (d *c02Delivery) content(header textproto.Header, body buffer.Buffer) {
 	if strings.HasPrefix(d.letters, "x") {
 		atomic.AddInt32(&d.t.panics, 1)
 		d.t.w.Event(d.id, "PANIC")
@@ -313,7 +445,28 @@ func (d *c02Delivery) Body(ctx context.Context, header textproto.Header, body bu
 		d.t.bad[d.id] = true
 	}
 	d.t.mu.Unlock()
-	return nil
+}
+
+func (d *c02Delivery) Body(ctx context.Context, header textproto.Header, body buffer.Buffer) error {
+	d.flush()
+	d.content(header, body)
+	c := c02LetterAt(d.script.body, 0)
+	if c == 'o' {
+		d.bodyOK = d.accepted
+	}
+	return c02Err(c, "body")
+}
+
+func (d *c02PartialDelivery) BodyNonAtomic(ctx context.Context, sc module.StatusCollector, header textproto.Header, body buffer.Buffer) {
+	d.flush()
+	d.content(header, body)
+	for k, addr := range d.addrs {
+		c := c02LetterAt(d.script.body, k)
+		if c == 'o' {
+			d.bodyOK = append(d.bodyOK, d.accepted[k])
+		}
+		sc.SetStatus(addr, c02Err(c, "body"))
+	}
 }
 
 func (d *c02Delivery) Abort(ctx context.Context) error {
@@ -321,8 +474,13 @@ func (d *c02Delivery) Abort(ctx context.Context) error {
 	return nil
 }
 
+// Commit: only now the message is effective at the target; when the script makes it fail nobody got it.
 func (d *c02Delivery) Commit(ctx context.Context) error {
-	d.t.w.Event(d.id, "DLV:"+strings.Join(d.accepted, "."))
+	if err := c02Err(d.script.commit, "commit"); err != nil {
+		d.t.w.Event(d.id, "@CF")
+		return err
+	}
+	d.t.w.Event(d.id, "DLV:"+strings.Join(d.bodyOK, "."))
 	return nil
 }
 
@@ -437,6 +595,113 @@ type c02SegIn struct {
 	par      int // max_parallelism of this run (0: 4)
 	recovery bool
 	extDel   string // "<id>:<kind>": delete that file behind the queue's back between the start-up scan and the first dispatch
+	faults   []c02Fault
+	loc      int // index into c02DirNames: the name of the spool directory (0 = a plain one)
+}
+
+// c02DirNames: names of the spool directory (token `L<k>` of an op line; 0 = the plain numbered directory the
+// harness always used).  All of them are legal directory names an administrator may configure as the queue's
+// location: glob metacharacters (also an unbalanced bracket and a backslash), spaces, percent signs and printf
+// verbs, a leading dash, quotes / braces / dollar, non-ASCII letters, a very long name.
+var c02DirNames = []string{"", "spool[1]", "sp*ol", "sp?ol", "sp\\ool", "my spool dir", "100%25done%s%d", "-spool",
+	"очередь-ü-队列", strings.Repeat("q", 240), "[a-c]{x,y}~$HOME'\"", "sp[ool", "spool.d.meta"}
+
+func c02LocToken(loc int) string {
+	if loc <= 0 {
+		return ""
+	}
+	return "L" + strconv.Itoa(loc)
+}
+
+func c02LocPrefix(loc int) string {
+	if loc <= 0 {
+		return ""
+	}
+	return c02LocToken(loc) + " "
+}
+
+func c02ParseLoc(t string) (int, bool) {
+	if len(t) < 2 || t[0] != 'L' {
+		return 0, false
+	}
+	v, err := strconv.Atoi(t[1:])
+	if err != nil || v < 0 || v >= len(c02DirNames) {
+		return 0, false
+	}
+	return v, true
+}
+
+// c02GenLoc: half of the inputs use the plain directory, the others one of the unusual names.
+func c02GenLoc(r *vh.Rng) int {
+	if r.Bool() {
+		return 0
+	}
+	return 1 + r.Intn(len(c02DirNames)-1)
+}
+
+// c02Fault: the k-th call `call` (openM readM statH statB openH; a failing first read of the header file is swallowed
+// by the Peek at the beginning of textproto.ReadHeader, so it is not injected) on a file of id fails once with errno — a
+// transient condition (out of descriptors, I/O hiccup, permission glitch), gone in every later run.
+type c02Fault struct {
+	id    string
+	call  string
+	k     int
+	errno string
+}
+
+// c02FaultOfToken reads `Rf<call>,<errno>` (fault in the start-up scan) and `Df<call>,<errno>` (fault in openMessage).
+func c02FaultOfToken(id, t string) (c02Fault, bool) {
+	if len(t) < 3 || t[1] != 'f' || (t[0] != 'R' && t[0] != 'D') {
+		return c02Fault{}, false
+	}
+	p := strings.SplitN(t[2:], ",", 2)
+	if len(p) != 2 || !vos.ErrnoOK(p[1]) {
+		return c02Fault{}, false
+	}
+	f := c02Fault{id: id, call: p[0], k: 1, errno: p[1]}
+	switch {
+	case t[0] == 'R' && (p[0] == "openM" || p[0] == "readM" || p[0] == "statH" || p[0] == "statB"):
+	case t[0] == 'D' && (p[0] == "openM" || p[0] == "readM" || p[0] == "statB"):
+		f.k = 2 // the first such call is the one of the start-up scan
+	case t[0] == 'D' && p[0] == "openH":
+	default:
+		return c02Fault{}, false
+	}
+	return f, true
+}
+
+// c02ScanFault: "f<call>,<errno>" when a fault fired inside the start-up scan of this run for the id ("" otherwise).
+func c02ScanFault(lg []*vos.Entry) string {
+	scanSeen, pendingD := false, false
+	for _, e := range lg {
+		switch {
+		case e.Kind == 'r' && e.Text == "openM":
+			if !scanSeen {
+				scanSeen = true
+			} else {
+				pendingD = true
+			}
+		case e.Kind == 'e' && strings.HasPrefix(e.Text, "@O:"):
+			pendingD = false
+		case e.Kind == 'e' && strings.HasPrefix(e.Text, "@F:"):
+			call := e.Text[3:]
+			name := strings.SplitN(call, ",", 2)[0]
+			if (name == "openM" && !scanSeen) || (scanSeen && !pendingD && (name == "readM" || name == "statH" || name == "statB")) {
+				return "f" + call
+			}
+		}
+	}
+	return ""
+}
+
+// c02AnyFault: did any injected fault fire for the id in this run?
+func c02AnyFault(lg []*vos.Entry) bool {
+	for _, e := range lg {
+		if e.Kind == 'e' && strings.HasPrefix(e.Text, "@F:") {
+			return true
+		}
+	}
+	return false
 }
 
 type c02SegOut struct {
@@ -445,6 +710,7 @@ type c02SegOut struct {
 	logs  map[string][]*vos.Entry
 	final map[string]map[string]vos.FState // id → kind → file
 	bad   map[string]bool
+	files map[string][]byte // the directory when the run was over (base name → content)
 }
 
 var c02Base string
@@ -460,6 +726,9 @@ var c02Hangs int64
 const c02HangsEnough = 8 // every stuck run is made twice
 
 func c02Patience() time.Duration {
+	if atomic.LoadInt64(&c02Hangs) >= c02HangsEnough {
+		return 2 * time.Second // the verdict is a violation already (never on the tree the harness was written for)
+	}
 	if atomic.LoadInt64(&c02Hangs) > 0 {
 		return 6 * time.Second
 	}
@@ -482,6 +751,7 @@ func c02RunRecovery(in c02SegIn) c02SegOut {
 
 var c02HangsNotRepeated int64
 var c02NegLive int64
+var c02StartErrs int64
 
 // c02V reports a violation (and counts it: the replay of an input whose outcome depends on how the
 // deliveries interleave is repeated a few times until it shows the violation again).
@@ -494,11 +764,15 @@ func c02V(out *vh.Out, sig, op, detail string) {
 
 func c02RunSegment(in c02SegIn) c02SegOut {
 	atomic.AddInt64(&c02Runs, 1)
-	dir := filepath.Join(c02Base, strconv.FormatInt(atomic.AddInt64(&c02DirSeq, 1), 10))
+	top := filepath.Join(c02Base, strconv.FormatInt(atomic.AddInt64(&c02DirSeq, 1), 10))
+	dir := top
+	if in.loc > 0 && in.loc < len(c02DirNames) {
+		dir = filepath.Join(top, c02DirNames[in.loc])
+	}
 	if err := os.MkdirAll(dir, 0o777); err != nil {
 		panic(err)
 	}
-	defer os.RemoveAll(dir)
+	defer os.RemoveAll(top)
 	for name, data := range in.files {
 		if err := os.WriteFile(filepath.Join(dir, name), data, 0o666); err != nil {
 			panic(err)
@@ -506,6 +780,9 @@ func c02RunSegment(in c02SegIn) c02SegOut {
 	}
 	w := vos.Register(dir, in.files)
 	defer vos.Unregister(w)
+	for _, f := range in.faults {
+		w.InjectFault(f.id, f.call, f.k, f.errno)
+	}
 
 	tgt := &c02Target{w: w, attempt: map[string]int{}, outcomes: in.outcomes, gates: map[string]chan struct{}{}, expect: in.expect, bad: map[string]bool{}}
 	for _, a := range in.accepts {
@@ -545,7 +822,11 @@ func c02RunSegment(in c02SegIn) c02SegOut {
 		select {
 		case err := <-started:
 			if err != nil {
-				panic(err)
+				// The queue refuses to start on this directory (never on the tree the harness was written for; e.g. a
+				// changed start-up scan that trips over the NAME of the spool directory): nothing will ever be
+				// delivered from it.  Handled like a run that is stuck: abandoned, judged by the monitor.
+				hung = true
+				atomic.AddInt64(&c02StartErrs, 1)
 			}
 		case <-time.After(20 * time.Millisecond):
 			if c := progress(); c != last {
@@ -713,7 +994,10 @@ func c02RunSegment(in c02SegIn) c02SegOut {
 			panic("c02: shadow differs from the directory for " + e.Name())
 		}
 	}
-	out := c02SegOut{raced: raced, hung: hung, logs: map[string][]*vos.Entry{}, final: map[string]map[string]vos.FState{}, bad: tgt.bad}
+	out := c02SegOut{raced: raced, hung: hung, logs: map[string][]*vos.Entry{}, final: map[string]map[string]vos.FState{}, bad: tgt.bad, files: map[string][]byte{}}
+	for name, st := range sh {
+		out.files[name] = st.Data
+	}
 	for _, id := range w.Ids() {
 		out.logs[id] = w.Log(id)
 		out.final[id] = w.Final(id)
@@ -864,6 +1148,7 @@ func c02Tokens(lg []*vos.Entry, c c02Cut, recovery bool) []string {
 	}
 	scanSeen := !recovery
 	pendingD := false
+	faultNext := ""
 	for _, it := range c02Items(lg) {
 		if it.at >= c.pos {
 			break
@@ -880,12 +1165,27 @@ func c02Tokens(lg []*vos.Entry, c c02Cut, recovery bool) []string {
 					scanSeen = true
 				} else {
 					flush()
-					toks = append(toks, "D")
+					if faultNext != "" {
+						toks = append(toks, "Df"+faultNext)
+						faultNext = ""
+					} else {
+						toks = append(toks, "D")
+					}
 					pendingD = true
 				}
 			}
 		case 'e':
 			switch {
+			case strings.HasPrefix(it.text, "@F:"):
+				// an injected transient fault: inside openMessage it belongs to the dispatch (`Df…`); inside the
+				// start-up scan it belongs to the restart (c02ScanFault, `Rf…`)
+				call := it.text[3:]
+				switch {
+				case pendingD && run == 0 && len(toks) > 0 && toks[len(toks)-1] == "D":
+					toks[len(toks)-1] = "Df" + call
+				case strings.HasPrefix(call, "openM,") && scanSeen:
+					faultNext = call
+				}
 			case strings.HasPrefix(it.text, "@A:"):
 				flush()
 				toks = append(toks, "A"+it.text[3:])
@@ -1042,6 +1342,9 @@ type c02Hist struct {
 	hp   int             // -1 unknown, else result of ReadHeader on the header found after the first crash
 	tmp  map[string]int  // recipient → temporary failures the target returned before the crash(es)
 	prm  map[string]bool // recipient → the target returned a permanent failure before the crash(es)
+	// recipients delivered / reported in the run that was stopped last, when that stop came after the queue had
+	// finished everything it does for the message in that run (the run was quiescent): their outcome is recorded
+	idleDone map[string]bool
 }
 
 // c02Fails adds, per recipient, the failures the scripted target returned in the entries before pos.
@@ -1056,7 +1359,9 @@ func c02Fails(lg []*vos.Entry, pos int, tmp map[string]int, prm map[string]bool)
 		}
 		switch {
 		case strings.HasPrefix(e.Text, "@O:"):
-			letters = e.Text[3:]
+			// the result each recipient of the attempt has by the contract of a delivery (c02Effective): a failing
+			// Commit is a failure of every recipient the target had accepted
+			letters = c02Effective(e.Text[3:])
 		case strings.HasPrefix(e.Text, "ATT:"):
 			if e.Text != "ATT:" {
 				for k, r := range strings.Split(e.Text[4:], ".") {
@@ -1148,6 +1453,7 @@ type c02Explorer struct {
 	seen     *sync.Map
 	scen     string
 	par      int // max_parallelism of the recovery runs
+	loc      int // name of the spool directory of every run (index into c02DirNames)
 	sample   int // >0: percentage of the crash points that are explored (scenarios with many messages)
 }
 
@@ -1214,6 +1520,9 @@ func (x *c02Explorer) backlogLine(ctx *c02RecCtx) (string, bool) {
 			spec += " X+"
 		} else {
 			spec += " X-"
+		}
+		if k == 0 && x.loc > 0 {
+			spec += " " + c02LocToken(x.loc)
 		}
 		for _, o := range ctx.outcomes[id] {
 			spec += " O" + o
@@ -1463,6 +1772,16 @@ func (x *c02Explorer) explore(seg c02SegOut, recovery bool, hist map[string]c02H
 				nh.prm[k] = b
 			}
 			c02Fails(lg, c.pos, nh.tmp, nh.prm)
+			if c.pos == len(lg) && c.extra == 0 && !seg.hung {
+				nh.idleDone = map[string]bool{}
+				for _, e := range lg {
+					if e.Kind == 'e' && (strings.HasPrefix(e.Text, "DLV:") || strings.HasPrefix(e.Text, "RPT:")) && len(e.Text) > 4 {
+						for _, r := range strings.Split(e.Text[4:], ".") {
+							nh.idleDone[r] = true
+						}
+					}
+				}
+			}
 			if nh.hp < 0 {
 				if data, ok := perID[id]["H"]; ok {
 					nh.hp = 0
@@ -1482,7 +1801,7 @@ func (x *c02Explorer) explore(seg c02SegOut, recovery bool, hist map[string]c02H
 			key := fmt.Sprintf("%d|%s|%s", x.maxTries, skey, okey)
 			rec, ok := x.cache[key]
 			if !ok {
-				rec = c02RunRecovery(c02SegIn{maxTries: x.maxTries, files: files, outcomes: outcomes, expect: x.expect, recovery: true, par: x.par})
+				rec = c02RunRecovery(c02SegIn{maxTries: x.maxTries, files: files, outcomes: outcomes, expect: x.expect, recovery: true, par: x.par, loc: x.loc})
 				x.cache[key] = rec
 				x.ctxs[key] = &c02RecCtx{perID: perID, outcomes: outcomes, deliverable: ndeliverable}
 				if ndeliverable > x.parOr4() {
@@ -1526,18 +1845,29 @@ func (x *c02Explorer) judge(id string, h c02Hist, crashFiles map[string][]byte, 
 		return // nothing of this id existed yet
 	}
 	op := fmt.Sprintf("C02 run %d %d %s", x.maxTries, hp, strings.Join(toks, " "))
-	if _, dup := x.seen.LoadOrStore(op, true); dup {
+	// the same history under another name of the spool directory is judged by the monitor again (the model's
+	// answer does not depend on the name: one correspondence line per history)
+	if _, dup := x.seen.LoadOrStore(op+"|"+c02LocToken(x.loc), true); dup {
 		x.out.Stat("lines.duplicate")
 		return
 	}
 	labels := c02Labels(rec.logs[id], true)
 	obs := strings.Join(labels, " ") + " | " + c02ShowDisk(rec.final[id], id)
-	x.out.Corr(op, obs)
+	if _, dup := x.seen.LoadOrStore("corr|"+op, true); !dup {
+		x.out.Corr(op, obs)
+	}
 	// The model's answer does not depend on max_parallelism (the ids are independent), so the
 	// correspondence line does not carry it; the line named in a violation does (token S<par> in front,
 	// read by the replay only) whenever the recovery runs were not made with the default of 4.
-	if x.parOr4() != 4 {
-		op = fmt.Sprintf("C02 run %d %d S%d %s", x.maxTries, hp, x.parOr4(), strings.Join(toks, " "))
+	if x.parOr4() != 4 || x.loc > 0 {
+		pre := ""
+		if x.parOr4() != 4 {
+			pre = fmt.Sprintf("S%d ", x.parOr4())
+		}
+		if x.loc > 0 {
+			pre += c02LocToken(x.loc) + " "
+		}
+		op = fmt.Sprintf("C02 run %d %d %s%s", x.maxTries, hp, pre, strings.Join(toks, " "))
 	}
 
 	// ---- statistics of the input distribution
@@ -1719,6 +2049,20 @@ func (x *c02Explorer) judge(id string, h c02Hist, crashFiles map[string][]byte, 
 			}
 		}
 	}
+	// a recipient whose delivery / failure report the queue had finished recording when the process stopped (the
+	// stop found the queue idle for this message) is never sent to again
+	if len(h.idleDone) > 0 {
+		x.out.Stat("monitor.no-resend-after-recorded-outcome.checked")
+	resent:
+		for _, l := range attPost {
+			for _, r := range l {
+				if h.idleDone[r] {
+					c02V(x.out, "C02/resent-after-delivery", op, "recipient "+r+" was delivered (or reported as failed) before the stop, the queue had finished its bookkeeping for the message when the process stopped, and it is attempted again after the restart; "+detail())
+					break resent
+				}
+			}
+		}
+	}
 	preAtt := lists(h.pre, "ATT:")
 	if len(preAtt) > 0 {
 		last := map[string]bool{}
@@ -1768,6 +2112,7 @@ type c02Scenario struct {
 	out0     map[string][]string
 	stagger  int
 	par      int // max_parallelism of the recovery runs (0: 4); the first run always has room for every message
+	loc      int // name of the spool directory (index into c02DirNames)
 }
 
 func c02GenOutcomes(r *vh.Rng, n int, attempts int, faulty int, allowPanic bool) []string {
@@ -1785,9 +2130,44 @@ func c02GenOutcomes(r *vh.Rng, n int, attempts int, faulty int, allowPanic bool)
 				b[i] = 'o'
 			}
 		}
-		out = append(out, string(b))
+		out = append(out, string(b)+c02GenStages(r, n, faulty))
 	}
 	return out
+}
+
+// c02GenStages draws the part of an attempt's script after the AddRcpt stage ("" = plain target, Body and Commit
+// succeed): plain / PartialDelivery target, failure of Body (for all) or of BodyNonAtomic (per recipient), failure
+// of Commit — often after every earlier stage succeeded for everybody.  faulty = 0 keeps the attempt successful
+// (but still makes it with both kinds of target).
+func c02GenStages(r *vh.Rng, n int, faulty int) string {
+	if !r.Chance(45) {
+		return ""
+	}
+	partial := r.Bool()
+	commit := byte('o')
+	body := make([]byte, n)
+	for i := range body {
+		body[i] = 'o'
+	}
+	if faulty > 0 {
+		switch x := r.Intn(10); {
+		case x < 4: // Commit fails after everything before it went well
+			commit = "ttpu"[r.Intn(4)]
+		case x < 7: // the body stage fails (for some), Commit may fail too
+			for i := range body {
+				if r.Chance(50) {
+					body[i] = "ttpu"[r.Intn(4)]
+				}
+			}
+			if r.Chance(30) {
+				commit = "tpu"[r.Intn(3)]
+			}
+		}
+	}
+	if !partial {
+		return "/a" + string(body[:1]) + "/" + string(commit)
+	}
+	return "/n" + string(body) + "/" + string(commit)
 }
 
 func c02GenScenario(r *vh.Rng) c02Scenario {
@@ -1811,6 +2191,7 @@ func c02GenScenario(r *vh.Rng) c02Scenario {
 	}
 	// max_parallelism of the recovery runs: mostly smaller than the number of messages in the spool
 	sc.par = []int{1, 2, 1, 2, 4}[r.Intn(5)]
+	sc.loc = c02GenLoc(r)
 	hls := c02HeaderLens()
 	base := hls[2]
 	two := len(c02HeaderBytes(c02MakeHeader(0)))
@@ -1866,14 +2247,25 @@ func c02RunScenario(out *vh.Out, sc c02Scenario, r *vh.Rng, seen *sync.Map, only
 		norig[a.id] = a.n
 		envs[a.id] = a.envL()
 	}
-	seg0 := c02RunSegment(c02SegIn{maxTries: sc.maxTries, accepts: sc.accepts, outcomes: sc.out0, expect: expect, stagger: sc.stagger, par: 8})
+	seg0 := c02RunSegment(c02SegIn{maxTries: sc.maxTries, accepts: sc.accepts, outcomes: sc.out0, expect: expect, stagger: sc.stagger, par: 8, loc: sc.loc})
 	if seg0.hung {
-		c02V(out, "C02/queue-hang", fmt.Sprintf("C02 run %d 1 %s", sc.maxTries, strings.Join(c02Tokens(seg0.logs[sc.accepts[0].id], c02Cut{pos: len(seg0.logs[sc.accepts[0].id])}, false), " ")),
-			fmt.Sprintf("the queue stopped making progress in a run without any crash (%d messages, max_parallelism 8) while it still owed deliveries", len(sc.accepts)))
+		htoks := c02Tokens(seg0.logs[sc.accepts[0].id], c02Cut{pos: len(seg0.logs[sc.accepts[0].id])}, false)
+		if len(htoks) == 0 {
+			// nothing happened at all (the queue did not even start): name the transaction that was to be made
+			a := sc.accepts[0]
+			htoks = []string{"A" + c02AToken(a.n, a.hl, a.bl, a.envL())}
+			if a.fate == 'c' {
+				htoks = append(htoks, "C")
+			} else if a.fate == 'b' {
+				htoks = append(htoks, "B")
+			}
+		}
+		c02V(out, "C02/queue-hang", fmt.Sprintf("C02 run %d 1 %s", sc.maxTries, c02LocPrefix(sc.loc)+strings.Join(htoks, " ")),
+			fmt.Sprintf("the queue stopped making progress (or refused to start) in a run without any crash (%d messages, max_parallelism 8, spool directory %q) while it still owed deliveries", len(sc.accepts), c02DirNames[sc.loc]))
 		return
 	}
 	x := &c02Explorer{out: out, maxTries: sc.maxTries, expect: expect, norig: norig, env: envs, outs: recOuts, maxDepth: maxDepth,
-		thorough: vh.Thorough(), rng: r, only: only, cache: map[string]c02SegOut{}, ctxs: map[string]*c02RecCtx{}, seen: seen, par: sc.par}
+		thorough: vh.Thorough(), rng: r, only: only, cache: map[string]c02SegOut{}, ctxs: map[string]*c02RecCtx{}, seen: seen, par: sc.par, loc: sc.loc}
 	if len(sc.accepts) >= 4 && only == nil {
 		// many messages: a sample of the crash points (each of them stops ALL the messages)
 		x.sample = 30
@@ -1909,6 +2301,7 @@ func c02RunScenario(out *vh.Out, sc c02Scenario, r *vh.Rng, seen *sync.Map, only
 	out.Stat(fmt.Sprintf("scenario.maxTries.%d", sc.maxTries))
 	out.Stat(fmt.Sprintf("scenario.stagger.%d", sc.stagger))
 	out.Stat(fmt.Sprintf("scenario.recovery-max-parallelism.%d", x.parOr4()))
+	out.Stat(fmt.Sprintf("scenario.spool-dir-name.%d", sc.loc))
 	x.explore(seg0, false, hist, 1)
 }
 
@@ -1923,9 +2316,9 @@ func c02GenRecOuts(r *vh.Rng, sc c02Scenario, depths int) [][]map[string][]strin
 			m := map[string][]string{}
 			for _, a := range sc.accepts {
 				o := c02GenOutcomes(r, a.n, sc.maxTries+1, []int{0, 50, 80}[v], false)
-				if v > 0 && !strings.ContainsAny(o[0], "tpu") {
+				if v > 0 && !strings.ContainsAny(c02Effective(o[0]), "tpu") {
 					b := []byte(o[0])
-					b[r.Intn(len(b))] = "tpu"[r.Intn(3)]
+					b[r.Intn(a.n)] = "tpu"[r.Intn(3)]
 					o[0] = string(b)
 				}
 				m[a.id] = o
@@ -1991,6 +2384,8 @@ func c02Replay(out *vh.Out, op string, seen *sync.Map) {
 			ops += v
 		case t[0] == 'S':
 			sc.par, _ = strconv.Atoi(t[1:])
+		case t[0] == 'L':
+			sc.loc, _ = c02ParseLoc(t)
 		case t == "C":
 			a.fate = 'c'
 		case t == "B":
@@ -2064,6 +2459,15 @@ type c02SynSpec struct {
 	tries    map[string]int    // recipient → stored counter
 	outcomes []string
 	extDel   string
+	loc      int
+	segs     []c02SynSeg // the recovery runs made on the directory, one after the other (segs[0].outcomes == outcomes)
+}
+
+// c02SynSeg: one run of the queue on a hand-made directory: its scripted outcomes and the transient faults
+// injected into it.  Runs are separated by `Xa` (the process stops, nothing is lost) in the op line.
+type c02SynSeg struct {
+	outcomes []string
+	faults   []c02Fault
 }
 
 func c02ParseSyn(id string, f []string) (*c02SynSpec, bool) {
@@ -2133,31 +2537,75 @@ func c02ParseSyn(id string, f []string) (*c02SynSpec, bool) {
 			sp.f[0] = "1"
 		}
 	}
+	sp.segs = []c02SynSeg{{}}
 	for _, t := range f[6:] {
 		if t == "" {
 			continue
 		}
+		seg := &sp.segs[len(sp.segs)-1]
 		if t[0] == 'O' {
-			sp.outcomes = append(sp.outcomes, t[1:])
+			seg.outcomes = append(seg.outcomes, t[1:])
 		}
 		if t[0] == 'Z' {
 			sp.extDel = id + ":" + t[1:]
 		}
+		if t[0] == 'X' {
+			sp.segs = append(sp.segs, c02SynSeg{})
+		}
+		if l, ok := c02ParseLoc(t); ok {
+			sp.loc = l
+		}
+		if ft, ok := c02FaultOfToken(id, t); ok {
+			seg.faults = append(seg.faults, ft)
+		}
 	}
+	sp.outcomes = sp.segs[0].outcomes
 	return sp, true
 }
 
 // c02JudgeSyn emits the correspondence line of one hand-made message for the run `rec` (the per-id line
 // `C02 syn …` whatever else was in the directory: ids are independent) and evaluates the property on the
 // real events.  Violations name `violOp` (the op line that reproduces the run; "" = the per-id line).
-func c02JudgeSyn(out *vh.Out, stat string, maxTries int, sp *c02SynSpec, rec c02SegOut, violOp string) int {
+func c02JudgeSyn(out *vh.Out, stat string, maxTries int, sp *c02SynSpec, recs []c02SegOut, violOp string) int {
 	id, files, env, extDel := sp.id, sp.files, sp.env, sp.extDel
 	nviol := 0
-	lg := rec.logs[id]
-	toks := c02Tokens(lg, c02Cut{pos: len(lg)}, true)
-	line := fmt.Sprintf("C02 syn %d %s R %s", maxTries, strings.Join(sp.f, " "), strings.Join(toks, " "))
+	rec := recs[len(recs)-1]
+	// the whole history of the directory: run, clean stop, run, …; the monitor reads the events of all runs
+	var lg []*vos.Entry
+	var toks []string
+	faulted, lastFaulted := false, false
+	for i, r := range recs {
+		l := r.logs[id]
+		if i > 0 {
+			toks = append(toks, "Xa")
+		}
+		toks = append(toks, "R"+c02ScanFault(l))
+		toks = append(toks, c02Tokens(l, c02Cut{pos: len(l)}, true)...)
+		lg = append(lg, l...)
+		lastFaulted = c02AnyFault(l)
+		if lastFaulted {
+			faulted = true
+			out.Stat(stat + ".run-with-transient-fault")
+			for _, e := range l {
+				if e.Kind == 'e' && strings.HasPrefix(e.Text, "@F:") {
+					out.Stat(stat + ".fault." + e.Text[3:])
+				}
+			}
+		}
+	}
+	if len(recs) > 1 {
+		out.Stat(fmt.Sprintf("%s.restarts.%d", stat, len(recs)))
+		if faulted && !lastFaulted {
+			out.Stat(stat + ".fault-then-fault-free-restart")
+		}
+	}
+	if sp.loc > 0 {
+		toks = append([]string{c02LocToken(sp.loc)}, toks...)
+	}
+	out.Stat(fmt.Sprintf("%s.spool-dir-name.%d", stat, sp.loc))
+	line := fmt.Sprintf("C02 syn %d %s %s", maxTries, strings.Join(sp.f, " "), strings.Join(toks, " "))
 	line = strings.TrimSpace(line)
-	labels := c02Labels(lg, true)
+	labels := c02Labels(rec.logs[id], true)
 	out.Corr(line, strings.Join(labels, " ")+" | "+c02ShowDisk(rec.final[id], id))
 	out.Stat(stat + ".cases")
 	for _, l := range labels {
@@ -2196,7 +2644,12 @@ func c02JudgeSyn(out *vh.Out, stat string, maxTries int, sp *c02SynSpec, rec c02
 	_, hasBody := files[id+".body"]
 	if storedOK && hasHdr && hasBody && extDel == "" {
 		out.Stat(stat + ".monitor.stored-message-accounted-for.checked")
-		lost, why := c02Account(id, storedTo, nil, c02EnvNull(env), c02HeaderParses(hdrData), maxTries, sp.tries, nil, lg, rec.final[id])
+		// A run in which a transient fault met this message may leave it alone (skipped and KEPT: it then has to be
+		// pending in a loadable .meta at the end); once a fault-free run followed, it has to have been attempted.
+		lost, why := c02Account(id, storedTo, nil, c02EnvNull(env), c02HeaderParses(hdrData) && !lastFaulted, maxTries, sp.tries, nil, lg, rec.final[id])
+		if lost != "" && faulted {
+			why += " (a transient fault of a read-only file-system call met the message in a run of the queue on this directory: it must be skipped and kept)"
+		}
 		if lost != "" {
 			quarantined := ""
 			if _, q := rec.final[id]["X"]; q && c02DidOp(lg, "mvMX") {
@@ -2252,7 +2705,7 @@ func c02RunSyn(out *vh.Out, op string) {
 	if !ok {
 		return
 	}
-	rec := c02RunRecovery(c02SegIn{maxTries: maxTries, files: sp.files, outcomes: map[string][]string{sp.id: sp.outcomes}, recovery: true, extDel: sp.extDel})
+	rec := c02RunRecovery(c02SegIn{maxTries: maxTries, files: sp.files, outcomes: map[string][]string{sp.id: sp.outcomes}, recovery: true, extDel: sp.extDel, faults: sp.segs[0].faults, loc: sp.loc})
 	if rec.raced {
 		out.Stat("syn.external-delete-too-late(discarded)")
 		return
@@ -2260,7 +2713,16 @@ func c02RunSyn(out *vh.Out, op string) {
 	if sp.extDel != "" {
 		out.Stat("syn.external-delete." + sp.extDel[len(sp.id)+1:])
 	}
-	n := c02JudgeSyn(out, "syn", maxTries, sp, rec, "")
+	recs := []c02SegOut{rec}
+	for _, sg := range sp.segs[1:] {
+		if rec.hung {
+			break
+		}
+		// the process stops (nothing is lost) and is started again on what the run before left
+		rec = c02RunRecovery(c02SegIn{maxTries: maxTries, files: rec.files, outcomes: map[string][]string{sp.id: sg.outcomes}, recovery: true, faults: sg.faults, loc: sp.loc})
+		recs = append(recs, rec)
+	}
+	n := c02JudgeSyn(out, "syn", maxTries, sp, recs, "")
 	if rec.hung && n == 0 {
 		c02V(out, "C02/recovery-hang", op, "the recovery run stopped making progress while the queue still owed a delivery (its own log: a message loaded or accepted, neither removed nor given up on)")
 	}
@@ -2318,14 +2780,17 @@ func c02RunBacklog(out *vh.Out, op string) int {
 	if !flush() || len(specs) == 0 {
 		return 0
 	}
-	rec := c02RunRecovery(c02SegIn{maxTries: maxTries, files: files, outcomes: outcomes, recovery: true, par: par})
+	rec := c02RunRecovery(c02SegIn{maxTries: maxTries, files: files, outcomes: outcomes, recovery: true, par: par, loc: specs[0].loc})
+	for _, sp := range specs {
+		sp.loc = specs[0].loc
+	}
 	out.Stat("backlog.runs")
 	out.Stat(fmt.Sprintf("backlog.messages.%d", len(specs)))
 	out.Stat(fmt.Sprintf("backlog.max-parallelism.%d", par))
 	nviol := 0
 	var never []string
 	for _, sp := range specs {
-		nviol += c02JudgeSyn(out, "backlog", maxTries, sp, rec, op)
+		nviol += c02JudgeSyn(out, "backlog", maxTries, sp, []c02SegOut{rec}, op)
 		attempted := false
 		for _, e := range rec.logs[sp.id] {
 			if e.Kind == 'e' && strings.HasPrefix(e.Text, "ATT:") {
@@ -2378,6 +2843,11 @@ func c02GenBacklog(r *vh.Rng) string {
 			xx = "X+"
 		}
 		line += fmt.Sprintf(" 1 H%d B%d %s %s %s", []int{hls[2], hls[2], hls[0], hls[1], hls[3], hls[2]}[r.Intn(6)], []int{7, 2, 0, 1, 7, 0}[r.Intn(6)], m, nn, xx)
+		if i == 0 {
+			if l := c02GenLoc(r); l > 0 {
+				line += " " + c02LocToken(l)
+			}
+		}
 		for a := 0; a < maxTries+1; a++ {
 			bb := make([]byte, n)
 			for j := range bb {
@@ -2390,7 +2860,7 @@ func c02GenBacklog(r *vh.Rng) string {
 			if a == 0 && (allFail || i == 0) && !strings.ContainsAny(string(bb), "tu") {
 				bb[r.Intn(n)] = 't'
 			}
-			line += " O" + string(bb)
+			line += " O" + c02Canon(string(bb)+c02GenStages(r, n, 50), n)
 		}
 	}
 	return line
@@ -2465,17 +2935,55 @@ func c02GenSyn(r *vh.Rng) string {
 		xx = "X+"
 	}
 	line := fmt.Sprintf("C02 syn %d %d %s %s %s %s %s", maxTries, hp, h, b, m, nn, xx)
+	if l := c02GenLoc(r); l > 0 {
+		line += " " + c02LocToken(l)
+	}
+	zed := false
 	if n > 0 && h != "H-" && b != "B-" && hp == 1 && r.Chance(30) {
 		line += " Z" + r.Pick("B", "H", "M")
+		zed = true
 	}
-	for a := 0; a < maxTries+1; a++ {
-		bb := make([]byte, n)
-		for i := range bb {
-			bb[i] = "ootpu"[r.Intn(5)]
+	script := func() {
+		for a := 0; a < maxTries+1; a++ {
+			bb := make([]byte, n)
+			for i := range bb {
+				bb[i] = "ootpu"[r.Intn(5)]
+			}
+			if n > 0 {
+				line += " O" + c02Canon(string(bb)+c02GenStages(r, n, 50), n)
+			}
 		}
-		if n > 0 {
-			line += " O" + string(bb)
+	}
+	// Transient faults of the read-only calls (a third of the directories that have meta-data): one call of the
+	// start-up scan or of openMessage fails once (EMFILE, EIO, EACCES, …); mostly the process is then stopped and
+	// started again without any fault; sometimes two faulty starts in a row, sometimes no further start at all.
+	errno := func() string { return r.Pick("EMFILE", "EMFILE", "EIO", "EIO", "EACCES", "ENFILE", "EINTR", "ENOMEM") }
+	fault := func() string {
+		if r.Chance(65) {
+			return " Rf" + r.Pick("openM", "openM", "readM", "readM", "statH", "statB") + "," + errno()
 		}
+		return " Df" + r.Pick("openM", "readM", "statB", "openH") + "," + errno()
+	}
+	if m != "M-" && !zed && r.Chance(33) {
+		line += fault()
+		script()
+		switch x := r.Intn(10); {
+		case x < 7:
+			line += " Xa R"
+			script()
+		case x < 9:
+			line += " Xa" + fault()
+			script()
+			line += " Xa R"
+			script()
+		}
+		return line
+	}
+	script()
+	if m != "M-" && !zed && r.Chance(10) {
+		// an ordinary second start on what the first run left
+		line += " Xa R"
+		script()
 	}
 	return line
 }
@@ -2566,6 +3074,9 @@ func TestVerifC02(t *testing.T) {
 	out.StatN("real-queue-runs", int(atomic.LoadInt64(&c02Runs)))
 	if n := int(atomic.LoadInt64(&c02NegLive)); n > 0 {
 		out.StatN("real-queue-runs.more-deliveries-ended-than-begun(by-the-queue's-log)", n)
+	}
+	if n := int(atomic.LoadInt64(&c02StartErrs)); n > 0 {
+		out.StatN("real-queue-runs.queue-refused-to-start", n)
 	}
 	if n := int(atomic.LoadInt64(&c02Hangs)); n > 0 {
 		out.StatN("real-queue-runs.stuck", n)
